@@ -306,9 +306,11 @@ inline Sx parse_summary(std::string const& text)
     return out;
 }
 
-template <typename C> struct BuiltinCb
+// CbC: the checkpoint type the callback is instantiated with - the full type or (as the library's own
+// examples do) the base class without the random engine
+template <typename C, typename CbC = C> struct BuiltinCb
 {
-    hep::callback<C> inner; int mode; std::string filename; bool keep;
+    hep::callback<CbC> inner; int mode; std::string filename; bool keep;
     bool operator()(C const& c)
     {
         std::ostringstream capture;
@@ -373,7 +375,7 @@ template <typename T> struct Spec
     bool force_acc = false;
     Integrand<T> f; Map<T> map;
     bool builtin = true; int mode = 0; T target = T(); std::vector<bool> script;
-    std::string filename; bool keepfile = false;
+    std::string filename; bool keepfile = false; bool cbbase = false;
 };
 
 #ifdef VERIF_MPI
@@ -474,6 +476,25 @@ template <typename T, typename C, typename Mk, typename MkMpi> Sx run_ops(Spec<T
             chk = n;
             out.add(Sx::list({Sx::sym("reload"), Sx::sym("ok")}));
         }
+        else if (o == "combine")
+        {
+            // hep::accumulate / chi_square_dof over the checkpoint's results (with their distributions)
+            bool const wwv = op.at(1).is_sym("wwv");
+            auto const& rs = chk.results();
+            try
+            {
+                hep::plain_result<T> const r = wwv ? hep::accumulate<hep::weighted_with_variance>(rs.begin(), rs.end())
+                                                   : hep::accumulate<hep::weighted_equally>(rs.begin(), rs.end());
+                T const chi = wwv ? hep::chi_square_dof<hep::weighted_with_variance>(rs.begin(), rs.end())
+                                  : hep::chi_square_dof<hep::weighted_equally>(rs.begin(), rs.end());
+                Sx x = Sx::list({Sx::sym("ok")});
+                Sx items = e_plain_items<T>(r);
+                for (auto const& e : items.l) x.add(e);
+                x.add(Sx::flt(chi));
+                out.add(Sx::list({Sx::sym("combine"), x}));
+            }
+            catch (std::out_of_range const&) { out.add(Sx::list({Sx::sym("combine"), Sx::list({Sx::sym("ub")})})); }
+        }
         else if (o == "load")
         {
             // read a checkpoint from a file (C18: resume from what a killed process left behind)
@@ -534,6 +555,7 @@ template <typename T> Sx run_case(std::string const& cmd, Sx const& a)
     char const* tmpdir = std::getenv("VERIF_TMP");
     sp.filename = std::string(tmpdir ? tmpdir : ".") + "/verif_chk_" + std::to_string(::getpid()) + ".txt";
     if (Sx const* e = a.find("keepfile")) { sp.filename = e->at(1).S_(); sp.keepfile = true; }
+    sp.cbbase = num("cbbase", 0) != 0;
     Sx const& ops = a.find("ops")->at(1);
     Sx const& ck = a.find("chk")->at(1);
     bool const with_dists = !sp.dists.empty() || sp.force_acc;
@@ -545,9 +567,11 @@ template <typename T> Sx run_case(std::string const& cmd, Sx const& a)
         using C = PChk<T>;
         C chk = hep::make_plain_chkpt<T, script_engine>(script_engine(pos0));
         BuiltinCb<C> bcb{hep::callback<C>(modes[sp.mode & 3], sp.filename, sp.target), sp.mode, sp.filename, sp.keepfile}; ScriptCb<C> scb{sp.script};
+        BuiltinCb<C, hep::plain_chkpt<T>> bbb{hep::callback<hep::plain_chkpt<T>>(modes[sp.mode & 3], sp.filename, sp.target), sp.mode, sp.filename, sp.keepfile};
         hep::integrand<T, Integrand<T>, true> i1(sp.f, sp.dims, sp.dists);
         hep::integrand<T, Integrand<T>, false> i0(sp.f, sp.dims, sp.dists);
         result = run_ops<T>(sp, ops, chk, [&](std::vector<std::size_t> const& calls, C const& c) {
+            if (sp.builtin && sp.cbbase) return with_dists ? hep::plain(i1, calls, c, bbb) : hep::plain(i0, calls, c, bbb);
             if (with_dists) return sp.builtin ? hep::plain(i1, calls, c, bcb) : hep::plain(i1, calls, c, scb);
             return sp.builtin ? hep::plain(i0, calls, c, bcb) : hep::plain(i0, calls, c, scb); },
             [&](Spec<T>& my, std::vector<std::size_t> const& calls, C const& c) {
@@ -569,9 +593,11 @@ template <typename T> Sx run_case(std::string const& cmd, Sx const& a)
             ? hep::make_vegas_chkpt<T, script_engine>(make_pdf<T>(ck.at(1).N_(), ck.at(2).N_(), floats<T>(ck.at(3))), static_cast<T>(ck.at(4).F_()), script_engine(pos0))
             : hep::make_vegas_chkpt<T, script_engine>(static_cast<std::size_t>(ck.at(1).N_()), static_cast<T>(ck.at(2).F_()), script_engine(pos0));
         BuiltinCb<C> bcb{hep::callback<C>(modes[sp.mode & 3], sp.filename, sp.target), sp.mode, sp.filename, sp.keepfile}; ScriptCb<C> scb{sp.script};
+        BuiltinCb<C, hep::vegas_chkpt<T>> bbb{hep::callback<hep::vegas_chkpt<T>>(modes[sp.mode & 3], sp.filename, sp.target), sp.mode, sp.filename, sp.keepfile};
         hep::integrand<T, Integrand<T>, true> i1(sp.f, sp.dims, sp.dists);
         hep::integrand<T, Integrand<T>, false> i0(sp.f, sp.dims, sp.dists);
         result = run_ops<T>(sp, ops, chk, [&](std::vector<std::size_t> const& calls, C const& c) {
+            if (sp.builtin && sp.cbbase) return with_dists ? hep::vegas(i1, calls, c, bbb) : hep::vegas(i0, calls, c, bbb);
             if (with_dists) return sp.builtin ? hep::vegas(i1, calls, c, bcb) : hep::vegas(i1, calls, c, scb);
             return sp.builtin ? hep::vegas(i0, calls, c, bcb) : hep::vegas(i0, calls, c, scb); },
             [&](Spec<T>& my, std::vector<std::size_t> const& calls, C const& c) {
@@ -593,9 +619,11 @@ template <typename T> Sx run_case(std::string const& cmd, Sx const& a)
             ? hep::make_multi_channel_chkpt<T, script_engine>(floats<T>(ck.at(1)), static_cast<T>(ck.at(2).F_()), static_cast<T>(ck.at(3).F_()), script_engine(pos0))
             : hep::make_multi_channel_chkpt<T, script_engine>(static_cast<T>(ck.at(1).F_()), static_cast<T>(ck.at(2).F_()), script_engine(pos0));
         BuiltinCb<C> bcb{hep::callback<C>(modes[sp.mode & 3], sp.filename, sp.target), sp.mode, sp.filename, sp.keepfile}; ScriptCb<C> scb{sp.script};
+        BuiltinCb<C, hep::multi_channel_chkpt<T>> bbb{hep::callback<hep::multi_channel_chkpt<T>>(modes[sp.mode & 3], sp.filename, sp.target), sp.mode, sp.filename, sp.keepfile};
         hep::multi_channel_integrand<T, Integrand<T>, Map<T>, true> i1(sp.f, sp.dims, sp.map, sp.mapdims, sp.channels, sp.dists);
         hep::multi_channel_integrand<T, Integrand<T>, Map<T>, false> i0(sp.f, sp.dims, sp.map, sp.mapdims, sp.channels, sp.dists);
         result = run_ops<T>(sp, ops, chk, [&](std::vector<std::size_t> const& calls, C const& c) {
+            if (sp.builtin && sp.cbbase) return with_dists ? hep::multi_channel(i1, calls, c, bbb) : hep::multi_channel(i0, calls, c, bbb);
             if (with_dists) return sp.builtin ? hep::multi_channel(i1, calls, c, bcb) : hep::multi_channel(i1, calls, c, scb);
             return sp.builtin ? hep::multi_channel(i0, calls, c, bcb) : hep::multi_channel(i0, calls, c, scb); },
             [&](Spec<T>& my, std::vector<std::size_t> const& calls, C const& c) {
